@@ -1,4 +1,4 @@
-//@file crate=pie attach=src/lib.rs mod=verif_c17
+//@file crate=pie attach=src/lib.rs mod=verif_c17 caps=slot:4,lhs:4,map:4,vec:4 vec=model
 //! C17 (unit level): CompositeTracker forwarding, `Tracking` start/end pairs, EventTracker recording and query helpers.
 #![allow(unused, static_mut_refs)]
 use std::error::Error;
@@ -223,7 +223,7 @@ fn check_helpers(t: &EventTracker, rf: &[Option<RefEv>; 3], n: usize, q: &dyn Ke
 }
 
 /// Streams `[first, second, (third)]`: `first` is either a fixed kind or solver-chosen, `second` is solver-chosen, over
-/// subjects TA(x1) / TA(x2) or TB(x2) with symbolic fields; every helper is compared with the reference for query key TA(xq).
+/// subjects TA(x1) / TA(x2) or TB(x2) (fields case-split over {0,1}); every helper is compared with the reference for query key TA(xq).
 fn run_event_tracker(first_kind: Option<u8>, third: Option<u8>, ty2: u8, part: u8) {
   let (x1, x2, xq) = (vk::below(2), vk::below(2), vk::below(2));
   let chk = ModeChecker { mode: vk::below(4) };
